@@ -225,9 +225,18 @@ func spiceConfig(rng *rand.Rand, in []cfgEntry) []cfgEntry {
 		f.Scope = "local"
 		out = append(out, f)
 	}
+	// keys of a refgroup that have no value at all: an include without value matches every reference,
+	// a name without value is the empty name
+	for i := range out {
+		if out[i].Section == "refgroup" && out[i].Scope != "command" && rng.Intn(6) == 0 {
+			if out[i].Key == "include" || out[i].Key == "name" {
+				out[i].Value = nil
+			}
+		}
+	}
 	// display names with odd characters
 	for i := range out {
-		if out[i].Key == "name" && out[i].Section == "refgroup" && rng.Intn(2) == 0 {
+		if out[i].Key == "name" && out[i].Section == "refgroup" && out[i].Value != nil && rng.Intn(2) == 0 {
 			out[i].Value = sp([]string{"Name with\nLF", "", "Ünïcode", `q"uo\te`}[rng.Intn(4)])
 		}
 	}
